@@ -77,6 +77,10 @@ node outside the state (separation-style invariant `Inv` / frame `Res`).
   the pre-repair `rebuildAttrOld`.
 * Not covered by stage 2b: toggle names that are not a single token, style property names / values
   containing `;` (names also `:`), non-ASCII whitespace (assumption of the string model).
+* `StaticVec` has no constructor in the shared `View` / `State`: the correspondence driver composes
+  the model's `unmount` / `build` / `mount` for it (top level as the last child, or the one child of a
+  top-level element); no theorem speaks about it.  Raw-text elements (`script`, `style`, `textarea`,
+  `noscript`) are ordinary tags: every theorem covers them.
 * Stage 4 (`keyed`) is not in the Lean `View` type (modelled over an abstract child list in
   `Model/Keyed.lean`, C11; adding a constructor would break the exhaustive matches of the C05
   files that import `Model/View.lean`); correspondence only.  `StaticVec` / `Fragment`: not modelled.
